@@ -2,6 +2,7 @@
 import random
 from fractions import Fraction
 from common import *
+from common import proof_check_streams
 from streams_gen import *
 
 PID = "C04"
@@ -109,7 +110,7 @@ def scale_bits(b, k):
 
 
 def run(chk, replay=None):
-    proof = proof_check(PID)
+    proof = proof_check_streams(PID, "C04Streams")
     drv = build_driver()
     exe = build_harness("default")
     cfg = harness_config(exe)
